@@ -1158,16 +1158,39 @@ def timeouts_caught(ctx, rule, rels):
           armed = False
       if not armed:
         continue
-      caught = False
-      n = c
-      while id(n) in parents and not caught:
-        p = parents[id(n)]
-        if isinstance(p, ast.Try) and any(n is s_ for s_ in p.body):
-          for h in p.handlers:
-            ht = unparse(h.type) if h.type is not None else ''
-            if h.type is None or 'Timeout' in ht or 'BaseException' in ht:
-              caught = True
-        if isinstance(p, (ast.FunctionDef, ast.AsyncFunctionDef, ast.Lambda)) and p is not f.node:
-          break
-        n = p
+      caught = _timeout_caught(c, f.node, parents)
+      # a factory that hands the armed timer to its caller (`return gevent.Timeout.start_new(t)`): the obligation is the callers'
+      par = parents.get(id(c))
+      names = [unparse(t_) for t_ in par.targets] if isinstance(par, ast.Assign) else []
+      handed = isinstance(par, ast.Return) or any(isinstance(r_, ast.Return) and r_.value is not None and unparse(r_.value) in names for r_ in ast.walk(f.node))
+      if not caught and handed:
+        sites = []
+        for g in prog.all_funcs:
+          gp = None
+          for c2 in ast.walk(g.node):
+            if isinstance(c2, ast.Call) and unparse(c2.func).split('.')[-1] == f.name and g is not f:
+              if gp is None:
+                gp = {}
+                for p_ in ast.walk(g.node):
+                  for ch in ast.iter_child_nodes(p_):
+                    gp[id(ch)] = p_
+              sites.append((g, _timeout_caught(c2, g.node, gp)))
+        for g, okc in sites:
+          ctx.ob(rule, g, 'a gevent.Timeout armed through %s is caught by the caller' % f.name, okc, '%s arms a timeout for its caller %s, which has no enclosing `except gevent.Timeout`' % (f.name, g.qualname), why)
+        continue       # (a factory nobody calls arms nothing)
       ctx.ob(rule, f, 'a gevent.Timeout armed here is caught here', caught, '%s is armed with no enclosing `except gevent.Timeout`' % unparse(c)[:80], why)
+
+
+def _timeout_caught(c, fnode, parents):
+  n = c
+  while id(n) in parents:
+    p = parents[id(n)]
+    if isinstance(p, ast.Try) and any(n is s_ for s_ in p.body):
+      for h in p.handlers:
+        ht = unparse(h.type) if h.type is not None else ''
+        if h.type is None or 'Timeout' in ht or 'BaseException' in ht:
+          return True
+    if isinstance(p, (ast.FunctionDef, ast.AsyncFunctionDef, ast.Lambda)) and p is not fnode:
+      return False
+    n = p
+  return False
